@@ -56,7 +56,10 @@ def u_get_error_log(ip):
         preds.append(pred)
         return ip_.call(Option, [mk(pcodes)], {})
 
-    tim = PyObj("transition_infos", combine_all=PyFn(lambda ip_: ip_.call(Option, [mk(codes)], {}), "combine_all"), combine_filtered=PyFn(combine_filtered, "combine_filtered"))
+    last_only = PyObj("last_epoch_chain", epoch=new_obj(ip, "liesel/goose/epoch.py::EpochConfig", type=4, duration=1, thinning=1, optional=None),
+                      get=PyFn(lambda ip_: ip_.call(Option, [mk({k: z3.Const(f"last_epoch_only_{k}", U) for k in codes})], {}), "get"))
+    tim = PyObj("transition_infos", combine_all=PyFn(lambda ip_: ip_.call(Option, [mk(codes)], {}), "combine_all"), combine_filtered=PyFn(combine_filtered, "combine_filtered"),
+                get_current_chain=PyFn(lambda ip_: last_only, "get_current_chain"))
     kcls = {"k0": PyObj("ClsK0"), "k1": PyObj("ClsK1")}
     res = new_obj(ip, f"{ENG}::SamplingResults", transition_infos=tim, kernel_classes=ip.call(Option, [kcls], {}))
     for post in (False, True):
@@ -70,6 +73,7 @@ def u_get_error_log(ip):
             c.oblige(f"mask_and_codes.{kn}" + tag, And(ip.to_U(e.f["error_codes"]) == ip.uf("getitem", src[kn], ip.to_U((("slice", None, None, None), mask))),
                                                        ip.to_U(e.f["transition"]) == ip.uf("where", mask)), structural=True)
             c.oblige(f"kernel_identity.{kn}" + tag, e.f["kernel_ident"] == kn and e.f["kernel_cls"].f["_value"] is kcls[kn])
+    c.oblige("posterior_log_built_from_all_posterior_epochs", len(preds) == 1)  # combine_filtered(POSTERIOR) is the one and only source
     # the posterior filter
     ET = ip.repo("liesel/goose/epoch.py::EpochType")
     t = c.fresh("type", Int)
